@@ -130,7 +130,36 @@ V = [
   [('            var entry = unsorted_entries[i];\n', '            var entry = unsorted_entries[i];\n            var same = entry;\n')], 'OK'),
  ('K2 [control] SortedWriter.finish copies the key out of the entry (reading is free)', None, PY,
   [('        for e in sorted_entries:\n', '        for e in sorted_entries:\n            key_copy = list(e[0])\n')], 'OK'),
+ ('P1 an aggregator increment mutates the value it is handed (a cell)', None, PY,
+  [('        if key not in self.stats:\n            self.stats[key] = val\n', '        val.append(1)\n        if key not in self.stats:\n            self.stats[key] = val\n')], 'FLAG'),
+ ('P2 NumHandler.parse mutates its argument', None, PY,
+  [('        if not self.string_detection_done:\n', '        val.reverse()\n        if not self.string_detection_done:\n')], 'FLAG'),
+ ('P3 AggregateWriter.finish mutates a value that get_final returned', None, PY,
+  [('            out_fields = [ag.get_final(key) for ag in self.aggregators]\n', '            out_fields = [ag.get_final(key) for ag in self.aggregators]\n            out_fields[0].append(1)\n')], 'FLAG'),
+ ('P4 get_final mutates the stored value (a cell kept by increment)', None, PY,
+  [('class MinAggregator:', 'class FirstAggregator:\n    def __init__(self):\n        self.stats = dict()\n\n    def increment(self, key, val):\n        self.stats[key] = val\n\n    def get_final(self, key):\n        kept = self.stats[key]\n        kept.append(1)\n        return kept\n\n\nclass MinAggregator:')], 'FLAG'),
+ ('P5 ArrayAgg.get_final mutates an ELEMENT of its (owned) list of values', None, PY,
+  [('        res = self.stats[key]\n', '        res = self.stats[key]\n        res[0].append(1)\n')], 'FLAG'),
+ ('P6 the value field of the aggregation token (a cell) is mutated', None, PY,
+  [('                num_aggregators_found += 1\n', '                num_aggregators_found += 1\n                trans_value.value.append(1)\n')], 'FLAG'),
+ ('P7 a cell goes through a local and is mutated there', None, PY,
+  [('            if isinstance(trans_value, RBQLAggregationToken):\n', '            hop = trans_value\n            hop.append(1)\n            if isinstance(trans_value, RBQLAggregationToken):\n')], 'FLAG'),
+ ('P8 a cell goes through a local to an unknown function', None, PY,
+  [('            if isinstance(trans_value, RBQLAggregationToken):\n', '            hop = trans_value\n            user_namespace_hook(hop)\n            if isinstance(trans_value, RBQLAggregationToken):\n')], 'FLAG'),
+ ('P9 JS: a cell goes through a local to an unknown function', None, JS,
+  [('            var trans_value = transparent_values[i];\n            if (trans_value instanceof RBQLAggregationToken) {', '            var trans_value = transparent_values[i];\n            external_hook(trans_value);\n            if (trans_value instanceof RBQLAggregationToken) {')], 'FLAG'),
+ ('P10 a display holds a cell next to a row; the cell is read back and mutated', None, PY,
+  [('def select_simple(query_context, sort_key, out_fields):\n', 'def select_simple(query_context, sort_key, out_fields):\n    pair = (out_fields, out_fields[0])\n    pair[1].append(1)\n')], 'FLAG'),
+ ('P11 a container method on a cell is a mutation', None, CSV,
+  [('        self.normalize_fields(fields)\n', '        fields[0].sort()\n        self.normalize_fields(fields)\n')], 'FLAG'),
+ ('P12 the constructor of an engine class mutates the cell it is given', None, PY,
+  [('class RBQLAggregationToken(object):\n    def __init__(self, marker_id, value):\n', 'class RBQLAggregationToken(object):\n    def __init__(self, marker_id, value):\n        value.append(1)\n')], 'FLAG'),
+ ('K4 [control] a string method on a cell (a list object has no such method)', None, CSV,
+  [('        self.normalize_fields(fields)\n', '        fields[0].strip()\n        self.normalize_fields(fields)\n')], 'OK'),
+ ('K5 [control] increment keeps the cell in a second attribute (nobody trusts what is read back)', None, PY,
+  [('        if key not in self.stats:\n            self.stats[key] = val\n', '        self.last = val\n        if key not in self.stats:\n            self.stats[key] = val\n')], 'OK'),
 ]
+
 
 def main():
     only = sys.argv[1:]
